@@ -274,23 +274,59 @@ Proof.
 Qed.
 
 (* maps *)
-Lemma map_set_fresh k e acc : ~ In k (map fst acc) -> map_set k e acc = acc ++ [(k, e)].
+
+(* key lists without two keys that Go's == identifies *)
+Definition kfresh (k : val) (l : list val) : Prop := Forall (fun k' => key_eqb k k' = false) l.
+Fixpoint KND (l : list val) : Prop :=
+  match l with [] => True | k :: r => kfresh k r /\ KND r end.
+
+Lemma nodupb_KND l : nodupb key_eqb l = true <-> KND l.
 Proof.
-  induction acc as [|[k' e'] acc IH]; cbn [map fst In map_set app]; [reflexivity|].
-  intro H. rewrite val_eqb_neq by (intro E; apply H; left; now symmetry). rewrite IH; [reflexivity|tauto].
+  induction l as [|k r IH]; cbn [nodupb KND]; [tauto|].
+  rewrite andb_true_iff, negb_true_iff, IH. unfold kfresh. rewrite Forall_forall.
+  split; intros [H1 H2]; (split; [|exact H2]).
+  - intros k' Hin. destruct (key_eqb k k') eqn:E; [|reflexivity].
+    assert (existsb (key_eqb k) r = true) by (apply existsb_exists; eauto). congruence.
+  - destruct (existsb (key_eqb k) r) eqn:E; [|reflexivity].
+    apply existsb_exists in E. destruct E as [k' [Hin Hk]]. rewrite (H1 _ Hin) in Hk. discriminate.
+Qed.
+
+Lemma key_eqb_refl a : key_eqb a a = true.
+Proof. destruct a; cbn [key_eqb]; try apply val_eqb_refl. now rewrite N.eqb_refl. Qed.
+
+Lemma key_eqb_sym a b : key_eqb a b = key_eqb b a.
+Proof.
+  destruct a, b; cbn [key_eqb]; try reflexivity;
+    try (match goal with |- val_eqb ?x ?y = val_eqb ?y ?x =>
+           destruct (val_eqb x y) eqn:E1; destruct (val_eqb y x) eqn:E2; try reflexivity;
+           [apply val_eqb_spec in E1; rewrite E1, val_eqb_refl in E2; discriminate
+           |apply val_eqb_spec in E2; rewrite E2, val_eqb_refl in E1; discriminate] end).
+  rewrite N.eqb_sym. now rewrite (andb_comm (fzero bits)).
+Qed.
+
+Lemma KND_app_fresh acc k l : KND (acc ++ k :: l) -> kfresh k acc.
+Proof.
+  induction acc as [|a acc IH]; cbn [app KND]; [constructor|].
+  intros [Ha Hr]. constructor; [|now apply IH].
+  unfold kfresh in Ha. rewrite Forall_forall in Ha. rewrite key_eqb_sym. apply Ha. apply in_or_app. right. now left.
+Qed.
+
+Lemma map_set_fresh k e acc : kfresh k (map fst acc) -> map_set k e acc = acc ++ [(k, e)].
+Proof.
+  induction acc as [|[k' e'] acc IH]; cbn [map fst map_set app]; [reflexivity|].
+  intro H. inversion H as [|? ? Hk Hr]; subst. rewrite Hk. now rewrite IH.
 Qed.
 
 Lemma conv_map_clean c ck ce cek z m m' :
   map_value_into_key c = false ->
   Forall2 (fun kv kv' : val * val => ck (fst kv) = COk (fst kv') /\ ce (snd kv) = COk (snd kv')) m m' ->
-  forall acc, NoDup (map fst (acc ++ m')) -> conv_map c ck ce cek z m acc = COk (acc ++ m').
+  forall acc, KND (map fst (acc ++ m')) -> conv_map c ck ce cek z m acc = COk (acc ++ m').
 Proof.
   intro Hc. induction 1 as [|[k e] [k' e'] m m' [Hk He] _ IH]; intros acc Hnd; cbn [conv_map].
   - now rewrite app_nil_r.
   - cbn [fst snd] in *. rewrite Hk, Hc, He.
-    assert (Hfresh : ~ In k' (map fst acc)).
-    { rewrite map_app in Hnd. cbn [map fst] in Hnd. apply NoDup_remove_2 in Hnd.
-      intro Hin. apply Hnd. apply in_or_app. now left. }
+    assert (Hfresh : kfresh k' (map fst acc)).
+    { rewrite map_app in Hnd. cbn [map fst] in Hnd. exact (KND_app_fresh _ _ _ Hnd). }
     rewrite (map_set_fresh k' e' acc Hfresh). rewrite IH; rewrite <- app_assoc; [reflexivity | exact Hnd].
 Qed.
 
@@ -301,13 +337,39 @@ Proof.
   intros [->|Hin]; [exists x; auto | destruct (IH Hin) as [a [Ha Hp]]; exists a; auto].
 Qed.
 
-Lemma NoDup_back {A} (g : A -> cres A) l l' :
-  Forall2 (fun a b => g b = COk a) l l' -> NoDup l -> NoDup l'.
+(* a conversion sends keys that Go identifies to keys that Go identifies *)
+Definition respects_keys (g : val -> cres val) : Prop :=
+  forall x y x' y', key_eqb x y = true -> g x = COk x' -> g y = COk y' -> key_eqb x' y' = true.
+
+Lemma round32_zero b : fzero b = true -> round32 b = b.
 Proof.
-  induction 1 as [|a b l l' Hab H IH]; intro Hnd; [constructor|].
-  inversion Hnd as [|? ? Hnotin Hnd']; subst. constructor; [|now apply IH].
-  intro Hin. destruct (Forall2_In_r _ _ _ _ H Hin) as [a' [Ha' Hg]].
-  rewrite Hab in Hg. inversion Hg; subst. contradiction.
+  unfold fzero. rewrite orb_true_iff, !N.eqb_eq. intros [->| ->]; vm_compute; reflexivity.
+Qed.
+
+Lemma convert_respects_keys c to from : respects_keys (convert_to c to from).
+Proof.
+  intros x y x' y' Hk Hx Hy.
+  assert (Hcase : x = y \/ exists a b, x = VFloat a /\ y = VFloat b /\ fzero a = true /\ fzero b = true).
+  { destruct x, y; cbn [key_eqb] in Hk; try (left; now apply val_eqb_spec).
+    apply orb_true_iff in Hk. destruct Hk as [Hk|Hk].
+    - apply N.eqb_eq in Hk. left. now subst.
+    - apply andb_true_iff in Hk. right. eauto. }
+  destruct Hcase as [->|[a [b [-> [-> [Ha Hb]]]]]].
+  - rewrite Hx in Hy. inversion Hy; subst. apply key_eqb_refl.
+  - destruct to, from; cbn [convert_to] in Hx, Hy; try discriminate Hx;
+      inversion Hx; inversion Hy; subst; rewrite ?(round32_zero _ Ha), ?(round32_zero _ Hb);
+      cbn [key_eqb]; rewrite Ha, Hb; now rewrite orb_true_r.
+Qed.
+
+Lemma KND_back (g : val -> cres val) l l' :
+  respects_keys g -> Forall2 (fun a b => g b = COk a) l l' -> KND l -> KND l'.
+Proof.
+  intro Hg. induction 1 as [|a b l l' Hab H IH]; intro Hnd; [exact I|].
+  cbn [KND] in *. destruct Hnd as [Hf Hnd']. split; [|now apply IH].
+  unfold kfresh in *. rewrite Forall_forall in *. intros b2 Hin.
+  destruct (Forall2_In_r _ _ _ _ H Hin) as [a2 [Ha2 Hg2]].
+  destruct (key_eqb b b2) eqn:E; [|reflexivity].
+  rewrite <- (Hf _ Ha2). symmetry. exact (Hg _ _ _ _ E Hab Hg2).
 Qed.
 
 Lemma map_conv c k1 e1 k2 e2 m :
@@ -316,7 +378,7 @@ Lemma map_conv c k1 e1 k2 e2 m :
 Proof.
   intros Hclean IHk IHe Hck Hce Ht. unfold has_type in Ht. cbn [has_typeb] in Ht.
   apply andb_true_iff in Ht. destruct Ht as [Hall Hnd].
-  apply (nodupb_spec val_eqb _ val_eqb_spec) in Hnd.
+  apply nodupb_KND in Hnd.
   assert (Hex : exists m', Forall2 (fun kv kv' : val * val =>
                   Q c k1 k2 (fst kv) (fst kv') /\ Q c e1 e2 (snd kv) (snd kv')) m m').
   { apply Forall_exists_Forall2. apply Forall_forall. intros [k e] Hin.
@@ -325,8 +387,8 @@ Proof.
     destruct (IHk k2 k Hck Hk) as [k' Qk]. destruct (IHe e2 e Hce He) as [e' Qe].
     exists (k', e'). auto. }
   destruct Hex as [m' HF].
-  assert (Hnd' : NoDup (map fst m')).
-  { apply (NoDup_back (convert_to c k1 k2) (map fst m)); [|exact Hnd].
+  assert (Hnd' : KND (map fst m')).
+  { apply (KND_back (convert_to c k1 k2) (map fst m)); [apply convert_respects_keys| |exact Hnd].
     clear -HF. induction HF as [|kv kv' m m' [[_ [_ [_ Hb]]] _] _ IH]; cbn [map]; constructor; auto. }
   exists (VMap m'). unfold Q. cbn [convert_to].
   rewrite (conv_map_clean c _ _ _ _ m m' Hclean) with (acc := []).
@@ -339,7 +401,7 @@ Proof.
   - unfold has_type. cbn [has_typeb]. apply andb_true_iff. split.
     + clear -HF. induction HF as [|kv kv' m m' [[_ [Hk _]] [_ [He _]]] _ IH]; [reflexivity|].
       cbn [forallb]. unfold has_type in Hk, He. now rewrite Hk, He, IH.
-    + now apply (nodupb_spec val_eqb _ val_eqb_spec).
+    + now apply nodupb_KND.
   - cbn [agree]. clear -HF. induction HF as [|kv kv' m m' [[_ [_ [Hk _]]] [_ [_ [He _]]]] _ IH]; constructor; auto.
 Qed.
 
@@ -469,6 +531,60 @@ Proof.
   destruct t2, t1; cbn [class_of] in H; try congruence; cbn [convert_to]; try reflexivity; destruct v; reflexivity.
 Qed.
 
+(* ... at any depth: an element, key or matched field of another class makes the whole
+   conversion fail (clean configuration: the pinned convertMap never converts the element
+   into the element type) *)
+Lemma map_res_err {A B} (f : A -> cres B) l x : In x l -> f x = CErr -> map_res f l = CErr.
+Proof.
+  induction l as [|a l IH]; cbn [In map_res]; [tauto|].
+  intros [->|Hin] He; [now rewrite He|]. destruct (f a); [|reflexivity]. now rewrite (IH Hin He).
+Qed.
+
+Lemma conv_map_err c ck ce cek z m kv :
+  map_value_into_key c = false -> In kv m -> ck (fst kv) = CErr \/ ce (snd kv) = CErr ->
+  forall acc, conv_map c ck ce cek z m acc = CErr.
+Proof.
+  intros Hc. induction m as [|[k e] m IH]; cbn [In conv_map]; [tauto|].
+  intros [E|Hin] He acc; [subst kv|]; cbn [fst snd] in *.
+  - destruct He as [He|He]; [now rewrite He|]. destruct (ck k); [|reflexivity]. now rewrite Hc, He.
+  - destruct (ck k); [|reflexivity]. rewrite Hc. destruct (ce e); [|reflexivity]. now apply IH.
+Qed.
+
+Lemma conv_fields_err cv ffs ws tfs n t ft fw :
+  In (n, t) tfs -> find_field n ffs ws = Some (ft, fw) -> cv t ft fw = CErr -> conv_fields cv ffs ws tfs = CErr.
+Proof.
+  induction tfs as [|[n0 t0] tfs IH]; cbn [In conv_fields]; [tauto|].
+  intros [E|Hin] Hf He.
+  - inversion E; subst. now rewrite Hf, He.
+  - rewrite (IH Hin Hf He). destruct (find_field n0 ffs ws) as [[ft0 fw0]|]; [destruct (cv t0 ft0 fw0)|]; reflexivity.
+Qed.
+
+Lemma class_eqb_true a b : class_eqb a b = true -> a = b.
+Proof. destruct a, b; cbn; congruence. Qed.
+
+Theorem other_kind_refused : forall c, clean c -> forall to from w,
+  other_kind_reached to from w = true -> convert_to c to from w = CErr.
+Proof.
+  intros c Hclean.
+  induction to as [| |k| | |te IHe|tk te IHk IHe|tfs IHfs] using gotype_ind2; intros from w H;
+    cbn [other_kind_reached] in H; apply orb_true_iff in H;
+    (destruct H as [H|H];
+     [ apply negb_true_iff in H; match goal with |- convert_to c ?t from w = CErr => apply (convert_class_mismatch c from t w) end; intro E; rewrite E in H;
+       destruct (class_of from); discriminate H | ]); try discriminate H.
+  - destruct from; try discriminate H. destruct w; try discriminate H.
+    apply existsb_exists in H. destruct H as [x [Hin Hx]]. cbn [convert_to].
+    now rewrite (map_res_err _ _ x Hin (IHe _ _ Hx)).
+  - destruct from; try discriminate H. destruct w; try discriminate H.
+    apply existsb_exists in H. destruct H as [kv [Hin Hx]]. cbn [convert_to].
+    rewrite (conv_map_err c _ _ _ _ m kv Hclean Hin); [reflexivity|].
+    apply orb_true_iff in Hx. destruct Hx as [Hx|Hx]; [left; now apply IHk | right; now apply IHe].
+  - destruct from; try discriminate H. destruct w; try discriminate H.
+    apply existsb_exists in H. destruct H as [[n t] [Hin Hx]]. cbn [convert_to].
+    destruct (find_field n fs fs0) as [[ft fw]|] eqn:Hf; [|discriminate Hx].
+    rewrite Forall_forall in IHfs. specialize (IHfs _ Hin ft fw Hx). cbn [snd] in IHfs.
+    now rewrite (conv_fields_err (fun t f x => convert_to c t f x) fs fs0 tfs n t ft fw Hin Hf IHfs).
+Qed.
+
 (* ---------- witnesses ---------- *)
 Local Open Scope string_scope.
 
@@ -495,6 +611,13 @@ Qed.
 Lemma refuted_map_refused :
   compat wit2_t wit2_t /\ has_type wit2_t wit2_v /\ convert cfg_pinned wit2_t wit2_t wit2_v = CErr.
 Proof. split; [reflexivity|]. split; [reflexivity|]. vm_compute. reflexivity. Qed.
+
+(* and an element of another class goes unnoticed: map[int8]int8{1:5} into map[int16]string *)
+Definition wit3_t2 : gotype := TMap (TInt I16) TString.
+Lemma refuted_map_other_kind_accepted :
+  other_kind_reached wit3_t2 wit_t1 wit_v = true /\
+  convert cfg_pinned wit_t1 wit3_t2 wit_v = COk (VMap [(VInt 5, VStr "")]).
+Proof. split; vm_compute; reflexivity. Qed.
 
 (* a nested instance of the first clause: permuted fields, names differing in case, widening at the leaves *)
 Definition ex_t1 : gotype :=
